@@ -62,6 +62,50 @@ struct PageAlloc
     }
 };
 
+// an allocator with unsynchronised state: every request is counted in its arena.  A copy-constructed container gets
+// the calling thread's own arena (select_on_container_copy_construction), so copying a shared const vector must not
+// touch the arena of the source: that would be a write to shared state (a fault under write protection, a data race
+// between concurrent readers)
+struct Arena
+{
+    std::size_t requests = 0;
+};
+inline Arena& thread_arena()
+{
+    static thread_local Arena a;
+    return a;
+}
+template <class T>
+struct ArenaAlloc
+{
+    using value_type = T;
+    using is_always_equal = std::false_type;
+    Arena* arena;
+    ArenaAlloc() : arena(&thread_arena()) {}
+    explicit ArenaAlloc(Arena* a) : arena(a) {}
+    template <class U>
+    ArenaAlloc(const ArenaAlloc<U>& o) noexcept : arena(o.arena)
+    {
+    }
+    T* allocate(std::size_t n)
+    {
+        ++arena->requests;
+        return PageAlloc<T>{}.allocate(n);
+    }
+    void deallocate(T* p, std::size_t n) noexcept { PageAlloc<T>{}.deallocate(p, n); }
+    ArenaAlloc select_on_container_copy_construction() const { return ArenaAlloc{&thread_arena()}; }
+    template <class U>
+    friend bool operator==(const ArenaAlloc& l, const ArenaAlloc<U>& r) noexcept
+    {
+        return l.arena == r.arena;
+    }
+    template <class U>
+    friend bool operator!=(const ArenaAlloc& l, const ArenaAlloc<U>& r) noexcept
+    {
+        return l.arena != r.arena;
+    }
+};
+
 inline thread_local const char* g_op = "setup";
 inline void on_segv(int, siginfo_t* si, void*)
 {
@@ -171,7 +215,7 @@ std::size_t const_elem_ops(const typename V::value_type& e, const typename V::va
 }
 
 template <class V, class Make, class Fill>
-int run(const char* name, Make make, Fill fill)
+int run(const char* name, Make make, Fill fill, bool elements = true)
 {
     Holder<V> a([&] { return make(); });
     Holder<V> b([&] { return make(); });
@@ -179,7 +223,7 @@ int run(const char* name, Make make, Fill fill)
     fill(*b.v, 2);
     using E = typename V::value_type;
     // two standalone elements, the objects and their storage in protected pages as well
-    const bool with_elems = !a.v->empty() && !b.v->empty();
+    const bool with_elems = elements && !a.v->empty() && !b.v->empty();
     std::unique_ptr<Holder<E>> ea, eb;
     if (with_elems)
     {
@@ -267,6 +311,25 @@ int main()
     {
         using V = BasicContiguousVector<O, std::uint32_t, VaryingSize<float>>;
         run<V>("empty-varying", [] { return V{0, 0}; }, [](V&, int) {});
+    }
+    {
+        // the vectors' allocator state lives in a protected page next to them
+        void* page = mmap(nullptr, 4096, PROT_READ | PROT_WRITE, MAP_PRIVATE | MAP_ANONYMOUS, -1, 0);
+        regions().push_back(Region{page, 4096});
+        Arena* shared = new (page) Arena;
+        using OA = Options<Allocator<ArenaAlloc<std::byte>>>;
+        {
+            using V = BasicContiguousVector<OA, std::uint32_t, VaryingSize<float>>;
+            run<V>("arena-varying", [&] { return V{4, 200, ArenaAlloc<std::byte>{shared}}; },
+                   [](V& v, int n) { for (int i = 0; i < n; ++i) v.emplace_back(std::uint32_t(i + 1), std::vector<float>(static_cast<std::size_t>(i + 1), 2.5f)); },
+                   false);
+        }
+        {
+            using V = BasicContiguousVector<OA, FixedSize<std::uint16_t>, std::uint8_t>;
+            run<V>("arena-fixed", [&] { return V{4, {3}, ArenaAlloc<std::byte>{shared}}; },
+                   [](V& v, int n) { for (int i = 0; i < n; ++i) v.emplace_back(std::vector<std::uint16_t>{1, 2, std::uint16_t(i)}, std::uint8_t(i)); },
+                   false);
+        }
     }
     std::printf("end\n");
     return 0;
